@@ -17,6 +17,11 @@ func (t *Type) Enum(cfg *enum.Config) *Enum {
 		return disabled
 	}
 
+	if pkg := t.NamedType.Obj().Pkg(); !cfg.Enabled || (pkg != nil && cfg.Excludes.Matches(pkg.Path(), t.NamedType.Obj().Name())) {
+		// the memo below must not hold an answer that depends on the configuration of the first method asking
+		return disabled
+	}
+
 	if t.enum == nil {
 		t.enum = loadEnum(t.NamedType, cfg)
 	}
